@@ -3277,6 +3277,9 @@ impl Connection {
             Timer::PathValidation,
             now + 3 * cmp::max(self.pto(SpaceId::Data), prev_pto),
         );
+        // The loss detection timer was armed for what is in flight on the path just left; the
+        // new path starts with nothing in flight
+        self.set_loss_detection_timer(now);
     }
 
     /// Queue for retransmission everything still outstanding that was sent on a path we no longer
